@@ -40,11 +40,19 @@ pub fn evaluate_pair(case: &PairCase, run: &PairRun, focus: Focus) -> Outcome {
     let app_pending = run.unfinished.iter().any(|(_, g)| matches!(g, Group::ClientApp | Group::ServerApp));
     let conn_err = run.events.iter().any(|e| matches!(&e.api, Api::ConnDone { result: Err(_) }));
     let settled = run.end == RunEnd::Quiescent && !app_pending && run.panic.is_none() && !faulty && !conn_err;
-    check_c17(&C17Ctx { tap: &tap, events: &run.events, h2_sides: &sides, settled }, &mut out);
+    let read_fault = case.fault.as_ref().and_then(|f| {
+        let reader = if f.c2s { Side::Server } else { Side::Client };
+        match f.kind {
+            CutKind::ReadErr => Some((reader, "sim: connection reset")),
+            CutKind::ReadErrEof => Some((reader, "sim: peer closed without close_notify")),
+            _ => None,
+        }
+    });
+    check_c17(&C17Ctx { tap: &tap, events: &run.events, h2_sides: &sides, settled, read_fault }, &mut out);
     let reset_max = [case.ccfg.reset_max.unwrap_or(50), case.scfg.reset_max.unwrap_or(50)];
     let c2s_shutdown = run.wire.c2s.borrow().shutdown_called;
     check_c19(
-        &C19Ctx { tap: &tap, events: &run.events, stats: &run.stats, settled, client_handles_gone: settled && case.drop_send_request_at_end, c2s_shutdown, reset_max },
+        &C19Ctx { tap: &tap, events: &run.events, stats: &run.stats, settled, client_handles_gone: settled && case.drop_send_request_at_end, c2s_shutdown, reset_max, orphans: &run.orphans },
         &mut out,
     );
     check_c05(
